@@ -514,7 +514,7 @@ def control_case(draw):
     names = [f'out{k}' if k else 'out' for k in range(nout)]
     for _ in range(draw(st.integers(1, 25))):
         who = draw(st.sampled_from(names + [f'c{i}' for i in range(n)] * 2))
-        ops.append({'who': who, 'how': draw(st.sampled_from(['client', 'client', 'driver'])), 'value': draw(st.sampled_from([0.0, 1.0, 2.5]))})
+        ops.append({'who': who, 'how': draw(st.sampled_from(['client', 'client', 'driver', 'push'])), 'value': draw(st.sampled_from([0.0, 1.0, 2.5]))})
     return {'kind': 'control', 'n': n, 'nout': nout, 'outs': outs, 'ops': ops,
             'order': draw(st.sampled_from(['out-first', 'out-last']))}
 
@@ -578,13 +578,22 @@ def check_control(ctx, case):
                 if r[0] != 'changed':
                     ctx.finding(f'control:change-refused:{r[2][0]}', sub, repr(r)[:200])
                     return
+            elif op['how'] == 'push':
+                # a controller pushes a value to its output without taking over control (e.g. a regulation loop which
+                # is still running although the module lost control): nobody's control state changes by that
+                k = outs[int(op['who'][1:])] if op['who'] not in outnames else None
+                if k is None:
+                    continue
+                kit.modules[outnames[k]].update_target(op['who'], op['value'])
             else:
                 kit.modules[op['who']].write_target(op['value'])
         except Exception as e:   # noqa
             ctx.finding(f'control:op-raises:{type(e).__name__}', sub, repr(e)[:200])
             return
         who = op['who']
-        if who in owner:
+        if op['how'] == 'push':
+            pass
+        elif who in owner:
             owner[who] = 'self'
         elif outs[int(who[1:])] is None:
             fixed_active.add(who)
